@@ -32,7 +32,7 @@ def _run_batch(monitor, indexed_cases, env, timeout, workdir, tag, case_timeout=
     except subprocess.TimeoutExpired as e:
         status["timeout"] = True
         status["stderr"] = _clip((e.stderr or b"").decode("utf-8", "replace"))
-    recs, started, envinfo, done = {}, None, None, False
+    recs, started, envinfo, done, partials = {}, None, None, False, {}
     with open(ofile) as fh:
         for line in fh:
             try:
@@ -47,10 +47,13 @@ def _run_batch(monitor, indexed_cases, env, timeout, workdir, tag, case_timeout=
                 recs[o["i"]] = o["rec"]
                 if started == o["i"]:
                     started = None
+            elif "partial" in o:
+                partials.setdefault(o["i"], []).append(o["partial"])
             elif o.get("done"):
                 done = True
     os.remove(bfile)
     os.remove(ofile)
+    status["partials"] = partials
     return recs, started, envinfo, done, status
 
 
@@ -92,13 +95,19 @@ def run_cases(monitor, cases, variant="plain", batch_size=20, timeout_per_case=6
                     records[i] = {"error": "worker failed to start: rc=%s\n%s" % (status["rc"], status["stderr"])}
                 return
             culprit = started if started is not None else rest[0][0]
+            if status["timeout"] and status["partials"].get(culprit):
+                # the monitor had already reported a violation for this case before it hung: nothing to gain from a re-run
+                records[culprit] = {"timeout": True, "partial_viol": status["partials"][culprit]}
+                info["timeouts"] += 1
+                pending = [(j, c) for (j, c) in rest if j != culprit]
+                continue
             if len(pending) == 1 or (len(rest) >= 1 and rest[0][0] == culprit and solo):
                 i = culprit
                 if status["timeout"]:
-                    records[i] = {"timeout": True}
+                    records[i] = {"timeout": True, "partial_viol": status["partials"].get(i, [])}
                     info["timeouts"] += 1
                 else:
-                    records[i] = {"crash": True, "rc": status["rc"], "stderr": status["stderr"]}
+                    records[i] = {"crash": True, "rc": status["rc"], "stderr": status["stderr"], "partial_viol": status["partials"].get(i, [])}
                     info["crashes"] += 1
                 pending = [(j, c) for (j, c) in rest if j != i]
                 continue
@@ -113,10 +122,11 @@ def run_cases(monitor, cases, variant="plain", batch_size=20, timeout_per_case=6
                 records[culprit] = r2[culprit]
                 records[culprit]["rerun_after_batch_failure"] = True
             elif st2["timeout"]:
-                records[culprit] = {"timeout": True}
+                records[culprit] = {"timeout": True, "partial_viol": st2["partials"].get(culprit, []) or status["partials"].get(culprit, [])}
                 info["timeouts"] += 1
             else:
-                records[culprit] = {"crash": True, "rc": st2["rc"], "stderr": st2["stderr"]}
+                records[culprit] = {"crash": True, "rc": st2["rc"], "stderr": st2["stderr"],
+                                    "partial_viol": st2["partials"].get(culprit, []) or status["partials"].get(culprit, [])}
                 info["crashes"] += 1
             pending = others
 
